@@ -23,7 +23,24 @@ RULE = ("Case = recording (flat float32 / flat int16 opened with explicit nc/ns/
         "#valid) and rows are a sub-multiset of the unit's valid (sample, channel) pairs; both configurations give "
         "identical files; load_waveforms(labels, indices) == saved rows selected by cluster and rank. Non-trivial = "
         ">= 2 chunks AND a selected spike within one window length of an interior chunk boundary AND a unit with more "
-        "than max_wf valid spikes. Distinct = distinct case hash.")
+        "than max_wf valid spikes. Distinct = distinct case hash. Dimensions drawn on top (fields dims / ldims / arr.*, "
+        "absent in older corpus cases): OPTIONS - chunksize_samples / n_jobs / max_wf (256) / reader_kwargs / scratch_dir "
+        "(last run only) / loader trough_offset left at their defaults, h given explicitly for metadata recordings (the "
+        "file's geometry, or another one which then defines the neighbourhoods), channel_labels given, wfs_dtype float32 "
+        "/ float16 / float64 (saved dtype float32 or the requested one, values compared after the same cast), "
+        "load_waveforms(flatten=True), extract_wfs_array(verbose=True), bin_file / loader directory as str; RE-USE - in a "
+        "quarter of the cases the first configuration writes into a directory that already holds an earlier extraction "
+        "with a larger max_wf and another seed (optionally read by a loader first), a second WaveformsLoader on the same "
+        "files, the first query repeated after the others and after the caller overwrote what it had received, "
+        "make_channel_index asked for other radius / padding on the same geometry object and then for the first table "
+        "again (after the caller overwrote it), extract_wfs_array called with other spikes of the same shape and then "
+        "again with the same objects (the first result must not change); ARGUMENTS - spike vectors, geometry, traces, "
+        "spike table and neighbour table compared with copies after every call, read-only arrays in a third of the "
+        "cases; LAYOUT / TYPE - spike vectors as strided or reversed views, geometry h as float64 / float32 / int64, "
+        "make_channel_index geometry C / Fortran / transposed / strided / float32 / int64, extract_wfs_array traces C / "
+        "transposed / row- or column-strided / float32 / float64 / int16 (+NaN row added by the function), sample and "
+        "peak-channel columns int64 / int32 / uint32 / int16 / uint8 / uint64, table index offset or shuffled, neighbour "
+        "table int32 / Fortran-ordered, loader labels / indices as array, list, tuple, int32, uint64.")
 EXHAUSTIVE_NOTE = ("every spike offset within +-130 samples of the first, second and last chunk boundary, every sample of "
                    "the first and the last 300 samples of the file, for a fixed list of chunk sizes (see CHUNKS_ENUM) on "
                    "one geometry; everything else (geometries, unit sizes, other chunk sizes, workers, seeds) is sampled")
@@ -39,6 +56,14 @@ ASSUMPTIONS = [
     "in-memory sub-case: windows touching the first sample are generated, windows ending on the last sample are not "
     "(extract_wfs_array asserts strictly)",
     "templates of units without any valid spike: only rows of clusters present in the table are compared (table order)",
+    "input kinds the unchanged tree rejects are outside the domain: spike vectors as lists or pandas Series, output_dir "
+    "as str, geometry / traces / neighbour table as lists, uint64 or float sample columns for extract_wfs_array",
+    "wfs_dtype: the unchanged tree ignores it and saves float32; both float32 and the requested type are accepted",
+    "scratch_dir is left at its default only in the last extraction of a case (with a .cbin the default form removes the "
+    ".meta file next to it together with the temporary .bin - not part of this property)",
+    "loader labels are passed in ascending order (the order of the returned rows for unsorted labels is not documented)",
+    "objects returned by make_channel_index / extract_wfs_array / load_waveforms belong to the caller: overwriting them "
+    "must not change later answers",
 ]
 BUDGET = {"quick": 320, "thorough": 9000}
 SHRINK = {"quick": False, "thorough": True}
@@ -1065,7 +1090,7 @@ def run_case(case, ctx):
             out = d / ("out" + tag)
             out.mkdir()
             last = tag == "B"
-            for lab, flag in (("chunksize", run.get("omit_chunk") and run["chunk"] == 3000), ("n_jobs", run.get("omit_jobs")),
+            for lab, flag in (("chunksize", run.get("omit_chunk") and run["chunk"] == 3000),
                               ("reader_kwargs", dims.get("omit_reader_kwargs") and rk == {"sort": True}),
                               ("scratch_dir", mode == "meta_cbin" and last and dims.get("omit_scratch_last"))):
                 if flag:
@@ -1074,6 +1099,10 @@ def run_case(case, ctx):
             if pre and tag == "A":
                 r = ctx.call("C13.extract" + sfx, _extract, out, case["runs"][1], "P", False,
                              max_wf_run=max_wf + pre["add"], seed=pre["seed"])
+                if r is ctx.CRASH:
+                    # worker threads of the failed extraction may still be writing into the memory-mapped traces file:
+                    # re-creating it (shorter) under them would kill the process, so the case ends here
+                    return
                 if r is not ctx.CRASH:
                     _args_untouched("P")
                     op = _load_outputs(ctx, out, "P")
